@@ -47,7 +47,7 @@ CHECKS = {
         note="As C13."),
     "C04": dict(engine="E3-unpack", design="6 (C04), 5 (E3)", cat="fault_enumeration",
         technique="deterministic simulation: an injected tag validator and instrumented Validate methods observe every traversal path; every validator invocation is enumerated as a fault point",
-        text="SCOPED (DESIGN.md 6, C04). In scope: (a) no validator is skipped on any traversal path - after every successful Unpack the registered 'simcheck' tag validator must have seen the final value of every reachable field whose kind a built-in validator can reject, and every reachable value with a Validate method must have been validated, whether the value came from the config, the pre-fill or InitDefaults, through pointers, slices (incl. elements kept by append/prepend/merge), arrays, maps and inline fields; (b) every validator invocation of the case, failed once, makes Unpack fail with an error naming the field. Out of scope: the arithmetic of the five built-in validators on one value (pure).",
+        text="SCOPED (DESIGN.md 6, C04). In scope: (a) no validator is skipped on any traversal path - after every successful Unpack the registered 'simcheck' tag validator must have seen the final value of every reachable field whose kind a built-in validator can reject, and every reachable value with a Validate method must have been validated, whether the value came from the config, the pre-fill or InitDefaults, through pointers, slices (incl. elements kept by append/prepend/merge), arrays, maps and inline fields; (b) every validator invocation of the case, failed once, makes Unpack fail with an error naming the field; (c) the built-in validators nonzero / positive / min / max (numbers, strings, durations with unit and unit-less bounds) on generated fields of int, int8, uint16, float32/64, string, duration, *int, *string, *duration, named-int and Initializer-primitive kinds, with values from the configuration, from pre-filled defaults (5, the zero value, -5) and from InitDefaults: a value-level reference decides from the expected result whether the call may succeed - if any reachable final value breaks its tag, Unpack must fail, name one of those fields and leave the target unchanged. Out of scope: exhaustive arithmetic of the built-in validators over all values and parameter spellings (a pure function of value and parameter); their meaning on lists / maps as a whole.",
         note="Struct-kind fields present in the config do not get tag validators run and no built-in validator can reject a struct value: not demanded."),
     "C07": dict(engine="hostile arguments (E1/E2/E3/E6 surfaces) + E5 lexer schedules", design="6 (C07), 4.4", cat="exploration",
         technique="deterministic simulation: run-wide monitors (panic, step budget = bounded liveness, worker-crash, allocation bound) over hostile arguments placed inside valid histories, plus tape-chosen interleavings of the splice lexer goroutine and its parser at every channel operation under testing/synctest with exact leak / deadlock detection at bubble exit",
